@@ -26,12 +26,20 @@ feature keys, algorithm ids, string values of parameter / cost descriptions, pro
 a directed stream (`gen_history(strings=True)`) and, thinner, every other history.  Non-empty strings as feature VALUES stay
 outside (the unchanged Individual.to_dict recurses without end on them).  Compared exactly (Python str equality in the
 oracle; in Coq as opaque strings, NUL / surrogates renamed injectively by `lit`).
+
+Red-team round 3: (a) recorded populations of 255..2049 (thorough 4097) tiny individuals, counts on both sides of powers of two and
+round block sizes, sync_all alone and after sync_individual + in-place change (`big_history`): every row compared by the direct
+oracle; in Coq the proved closed form (one row per distinct id, row = image of the last synchronisation: Run/C10Run.v c10_big_run,
+c10_big_sound) on the row count and sampled ids.  (b) sync_individual of an existing and of a new id while a second connection
+(same process, real sqlite3) holds BEGIN EXCLUSIVE until the store has been refused 3..10 times in a row or has returned
+(`gen_lock_history`): after the release the view must show the synchronised data.
 """
 import gc
 import json
 import os
 import struct
 import sys
+import time
 import zlib
 
 from harness.core import ll, pl
@@ -66,6 +74,8 @@ ASSUMPTIONS = [
     "one writing session per file (re-opening a file in write mode reloads individuals whose state is a string and whose "
     "parents/children are empty; not modelled)",
     "parameter / cost names are strings",
+    "a lock held by another connection is eventually released (after 3..10 refusals of the store's write in the lock histories); a file "
+    "that stays locked for ever makes sync_individual recurse until RecursionError (outside the property)",
 ]
 
 HEADER = ("From Artap Require Import Run.C10Run.\nFrom Coq Require Import List ZArith String.\nImport ListNotations.\n"
@@ -589,6 +599,31 @@ def gen_history(rng, degenerate=False, strings=False):
     return case
 
 
+def gen_lock_history(rng):
+    """a history whose LAST calls are sync_individual calls made while a second connection holds the database lock: of an id that
+    has a row already (data re-drawn: the row must be replaced) and of a new id; nothing synchronises those ids afterwards"""
+    case = gen_history(rng)
+    case["ops"] = [o for o in case["ops"] if o["op"] != "reopen"][:6]
+    for o in case["ops"]:
+        o.pop("with_loaded", None)
+    dim = len(case["params"])
+    m = len(case["costs"])
+    seen = [d["id"] for o in case["ops"] for d in ([o["ind"]] if o["op"] == "sync" else o["inds"])]
+    tail = []
+    if seen:
+        i = rng.choice(seen)
+        tail.append({"op": "sync", "ind": dict(rind(rng, i, seen, dim, m), slot=i), "locked": rng.choice([3, 4, 4, 6, 10])})
+    new = rng.choice([j for j in IDS[:13] + [40, 41, 42] if j not in seen])
+    tail.append({"op": "sync", "ind": dict(rind(rng, new, seen + [new], dim, m), slot=new), "locked": rng.choice([3, 4, 4, 6, 10])})
+    if rng.random() < 0.5:
+        tail.reverse()
+    if rng.random() < 0.3:              # a third one in between that is not refused at all
+        tail.insert(1, {"op": "sync", "ind": dict(rind(rng, new + 100, seen + [new], dim, m), slot=new + 100)})
+    case["ops"] += tail
+    case["kind"] = "foreign-lock"
+    return case
+
+
 # --------------------------------------------------------------------------------------------------
 def run(ctx):
     import atexit
@@ -609,13 +644,85 @@ def run(ctx):
     # retries for ever (5 s per attempt, unbounded recursion); the recursion limit is lowered around store calls for the same reason.
     import artap.datastore as ds_mod
 
+    # Lock scenarios (red-team round 3, rule 12): a SECOND connection (same process, opened by the harness with the real sqlite3
+    # module) holds BEGIN EXCLUSIVE on the file across a sync_individual call; the real SQLite refuses the store's write
+    # ('database is locked' after the busy timeout, shortened harness-side: only scales the waiting) and the proxy counts the
+    # refusals; the holder lets go after the r-th refusal in a row - or when the store call has RETURNED (a store that gives up).
+    LOCK = {"on": False, "refused": 0, "busy": 0.05}
+
+    class CountCursor:
+        def __init__(self, real):
+            self._real = real
+
+        def execute(self, sql, *a):
+            try:
+                return self._real.execute(sql, *a)
+            except sqlite3.OperationalError:
+                if LOCK["on"] and sql.lstrip().upper().startswith("INSERT"):
+                    LOCK["refused"] += 1
+                raise
+
+        def __getattr__(self, name):
+            return getattr(self._real, name)
+
+    class CountConn:
+        def __init__(self, real):
+            self._real = real
+
+        def cursor(self):
+            return CountCursor(self._real.cursor())
+
+        def __getattr__(self, name):
+            return getattr(self._real, name)
+
     class ShortTimeout:
         def __getattr__(self, name):
             return getattr(sqlite3, name)
 
         def connect(self, *a, **kw):
-            kw.setdefault("timeout", 0.05)
-            return sqlite3.connect(*a, **kw)
+            kw.setdefault("timeout", LOCK["busy"])
+            return CountConn(sqlite3.connect(*a, **kw))         # always (a single-connection store keeps the one it opened first)
+
+    def sync_under_foreign_lock(store, path, ind, r):
+        """store.sync_individual(ind) while another connection owns the database lock until the store has been refused r times in a
+        row (or has returned).  Returns what happened, for the evidence."""
+        import threading
+        import contextlib
+        import io
+        holder = sqlite3.connect(path, timeout=2.0, isolation_level=None, check_same_thread=False)
+        info = {"held": False, "refused": 0, "returned_while_locked": False}
+        try:
+            try:
+                holder.execute("BEGIN EXCLUSIVE")
+                info["held"] = True
+            except sqlite3.OperationalError:
+                pass
+            state = {"returned": False}
+
+            def release():
+                t0 = time.time()
+                while LOCK["refused"] < r and not state["returned"] and time.time() - t0 < 20.0:
+                    time.sleep(0.001)
+                info["returned_while_locked"] = state["returned"] and LOCK["refused"] < r
+                if info["held"]:
+                    try:
+                        holder.execute("COMMIT")
+                    except sqlite3.Error:
+                        pass
+            LOCK.update(on=True, refused=0, busy=0.004)
+            th = threading.Thread(target=release, daemon=True)
+            th.start()
+            try:
+                with contextlib.redirect_stdout(io.StringIO()):        # conn() prints 'database is locked' when its PRAGMA is refused
+                    store.sync_individual(ind)
+            finally:
+                state["returned"] = True
+                th.join(25.0)
+                info["refused"] = LOCK["refused"]
+                LOCK.update(on=False, refused=0, busy=0.05)
+        finally:
+            holder.close()
+        return info
 
     ds_mod.sqlite3 = ShortTimeout()
 
@@ -833,6 +940,8 @@ def run(ctx):
             "resynchronised_ids": 0, "rows": 0, "float_tokens": 0, "inf_tokens": 0, "numpy_scalars": 0, "individual_refs": 0,
             "thread_safe": 0, "single_connection": 0, "rewrite": 0, "reopened_in_write_mode": 0, "sync_all_with_reloaded": 0,
             "long_lived_objects": 0, "shared_vectors": 0, "interleaved_pairs": 0, "longest_history": 0,
+            "foreign_lock": {"sync_individual_calls": 0, "lock_taken": 0, "refusals_by_sqlite": 0, "existing_row": 0, "new_id": 0,
+                             "call_returned_while_the_lock_was_held": 0},
             "runs": {}, "run_rows": 0, "run_recorded": 0, "strings_with_json_tokens": 0, "special_string_histories": 0}
 
     def census(d):
@@ -960,7 +1069,16 @@ def run(ctx):
                 elif op["op"] == "sync":
                     x = self.obj_for(op["ind"])
                     with shallow():
-                        self.store.sync_individual(x)
+                        if op.get("locked"):
+                            info = sync_under_foreign_lock(self.store, self.path, x, op["locked"])
+                            lk = hist["foreign_lock"]
+                            lk["sync_individual_calls"] += 1
+                            lk["lock_taken"] += info["held"]
+                            lk["refusals_by_sqlite"] += info["refused"]
+                            lk["existing_row" if op["ind"]["id"] in self.want else "new_id"] += 1
+                            lk["call_returned_while_the_lock_was_held"] += info["returned_while_locked"]
+                        else:
+                            self.store.sync_individual(x)
                     self.model_ops.append({"op": "sync", "ind": op["ind"]})
                     self.record(op["ind"])
                 else:
@@ -1048,6 +1166,130 @@ def run(ctx):
         a.close()
         b.close()
         hist["interleaved_pairs"] += 1
+
+    # ---- large recorded populations (red-team round 3, rule 7) ----------------------------------------
+    # Counts that straddle powers of two and round block sizes.  Tiny individuals; position p of problem.individuals has the id
+    # 3 p + 7 (so that a position is never its own id), generation g of its data: population_id g, costs [p / 2 + g], one feature.
+    # scenarios:  all            sync_all over n recorded individuals
+    #             ind_then_all   sync_individual for the positions around every multiple of 32, 50, 501 (and a random 4 %), then ALL the objects
+    #                            are changed in place (generation 1), then sync_all: the rows must hold generation 1
+    #             all_twice      sync_all, change in place, sync_all again
+    # Full comparison by the direct oracle; in Coq the proved closed form (Run/C10Run.v c10_big_run / c10_big_sound: one row per
+    # distinct id, the row of an id = image of its last synchronisation) on the row count and a sample of ids: first / last
+    # position, both sides of every multiple of 500 and 512 up to n, two random positions, two ids that were never synchronised.
+    bcases, bexpected, bmeta = [], [], []
+    BIG_SIZES = [255, 256, 257, 499, 500, 501, 511, 512, 513, 999, 1000, 1001, 1002, 1023, 1024, 1025, 2049]
+
+    def tiny(p, g):
+        c = (p * 0.5 + g).hex()
+        return {"id": 3 * p + 7, "vector": [{"f": float(p).hex()}], "costs": [{"f": c}], "costs_signed": [{"nf": c}, False], "state": "evaluated",
+                "population_id": g, "algorithm_id": 0, "custom": {"d": []}, "features": [["precision", 7], ["front_number", g + 1]],
+                "parents": [], "children": []}
+
+    def sample_positions(n):
+        pos = {0, n - 1, rng.randrange(n), rng.randrange(n)}
+        for b in (500, 512):
+            for q in range(b, n + 2, b):
+                pos.update((q - 1, q, q + 1))
+        return sorted(q for q in pos if 0 <= q < n)
+
+    # the generated file abbreviates the image of a tiny individual (it is `enc_ind(tiny(p, g))` with the three numbers left open)
+    TINY_DEF = ("Definition T (id vec cost g : Z) : individual := {| i_id := id; i_vector := [F vec]; i_costs := [F cost]; "
+                "i_costs_signed := JArr [F cost; JBool false]; i_state := Evaluated; i_population_id := N g; i_algorithm_id := N 0; "
+                "i_custom := JObj []; i_features := [(\"front_number\", PN (g + 1)); (\"precision\", PN 7)]; i_parents := []; i_children := [] |}.\n")
+
+    def enc_tiny(p, g):
+        d = tiny(p, g)
+        t = "(T %s %d %d %d)" % (zl(d["id"]), fbits(d["vector"][0]["f"]), fbits(d["costs"][0]["f"]), g)
+        return t
+
+    def big_history(n, scenario, thread_safe, k):
+        case = {"kind": "big:" + scenario, "name": "big", "description": "c10", "n_recorded": n, "scenario": scenario,
+                "individuals": "position p of problem.individuals: id 3 p + 7, vector [p], costs [p / 2 + g], population_id g, features "
+                               "{precision: 7, front_number: g + 1}, generation g = 0, changed in place to g = 1 between the store calls",
+                "params": [{"d": [["name", "x_1"], ["bounds", [0, 4096]]]}], "costs": [{"d": [["name", "F"], ["criteria", "minimize"]]}],
+                "store": {"mode": "write", "thread_safe": thread_safe, "pre": "none", "destroy": True}}
+        path = os.path.join(ctx.work, "big_%05d.sqlite" % k)
+        HProblem.spec = case
+        problem = HProblem()
+        obs, want = None, {}
+        try:
+            store = SqliteDataStore(problem, database_name=path, mode="write", thread_safe=thread_safe)
+            problem.data_store = store
+            objs = [make_ind(tiny(p, 0)) for p in range(n)]
+            problem.individuals = list(objs)
+
+            def regenerate(g):
+                for p, o in enumerate(objs):
+                    d = tiny(p, g)
+                    o.population_id = g
+                    o.costs = build(d["costs"])
+                    o.costs_signed = build(d["costs_signed"])
+                    o.features["front_number"] = g + 1
+            try:
+                with shallow():
+                    if scenario == "all":
+                        store.sync_all()
+                        gen = 0
+                    elif scenario == "all_twice":
+                        store.sync_all()
+                        regenerate(1)
+                        store.sync_all()
+                        gen = 1
+                    else:
+                        early = sorted({q for blk in (32, 50, 501) for b in range(0, n + blk, blk) for q in (b - 1, b, b + 1) if 0 <= q < n} | {q for q in range(n) if rng.random() < 0.04})
+                        for q in early:
+                            store.sync_individual(objs[q])
+                        case["synchronised_individually_first"] = "%d positions: both sides of every multiple of 32, 50 and 501 and a random 4 %%" % len(early)
+                        regenerate(1)
+                        store.sync_all()
+                        gen = 1
+                want = {3 * p + 7: tiny(p, gen) for p in range(n)}
+            except Exception as e:
+                fail("store call raised %s: %s" % (type(e).__name__, str(e)[:300]), case, "sync raises")
+                gc.collect()
+                return
+            store.destroy()
+            obs = read_back(path)
+        finally:
+            dispose(problem)
+        oracle(case, obs, want, True)
+        if "error" in obs:
+            return
+        where = {}
+        for j, (rid, text) in enumerate(obs["raw"]):
+            where.setdefault(rid, j)
+        samples, exp = [], []
+        for p in sample_positions(n) + [n, n + 1]:
+            iid = 3 * p + 7
+            samples.append(pl(zl(iid), "(Some %s)" % enc_tiny(p, want[iid]["population_id"]) if iid in want else "None"))
+            j = where.get(iid)
+            if j is None:
+                exp.append(pl(zl(iid), "None"))
+                continue
+            fields = None
+            try:
+                row = json.loads(obs["raw"][j][1])
+                v = obs["inds"][j]
+                fields = [enc_jv(describe(getattr(v, f))) for f in FIELDS] + [enc_jv(describe(row["parents"])), enc_jv(describe(row["children"]))]
+            except Exception:
+                fields = None
+            exp.append(pl(zl(iid), "(Some %s)" % ("None" if fields is None else "(Some %s)" % ll(fields))))
+        bcases.append("{| b_rows := %d; b_samples := %s |}" % (len(want), ll(samples)))
+        bexpected.append(pl(zl(len(obs["raw"])), ll(exp)))
+        bmeta.append(dict(case, sampled_ids=len(samples)))
+        h = hist.setdefault("large_histories", {"histories": 0, "recorded_individuals": 0, "rows_compared_by_the_oracle": 0, "ids_compared_in_coq": 0, "sizes": []})
+        h["histories"] += 1
+        h["recorded_individuals"] += n
+        h["rows_compared_by_the_oracle"] += len(want)
+        h["ids_compared_in_coq"] += len(samples)
+        if n not in h["sizes"]:
+            h["sizes"].append(n)
+        ctx.count(("big", scenario, n, thread_safe), nontrivial=True)
+        try:
+            os.remove(path)
+        except OSError:
+            pass
 
     # ---- complete runs of the algorithms that synchronise -----------------------------------------
     from artap.operators import RandomGenerator, CustomGenerator
@@ -1264,6 +1506,14 @@ def run(ctx):
         history_case(gen_history(rng, strings=True), k)
         hist["special_string_histories"] += 1
         k += 1
+    # sync_individual while a second connection holds the database lock (red-team round 3)
+    t_lock = time.time()
+    for _ in range(ctx.pick(8, 40)):
+        if saturated():
+            break
+        history_case(gen_lock_history(rng), k)
+        k += 1
+    hist["foreign_lock"]["python_s"] = round(time.time() - t_lock, 2)
     for _ in range(ctx.pick(20, 80)):
         if saturated():
             break
@@ -1281,6 +1531,22 @@ def run(ctx):
         history_case(gen_history(rng, degenerate=True), k)
         k += 1
 
+    # ---- large recorded populations: every size, sync_all alone and after individual synchronisations -------
+    kb = 0
+    t_big = time.time()
+    for n in BIG_SIZES:
+        for scenario in (["all", "ind_then_all"] if not ctx.thorough else ["all", "ind_then_all", "all_twice"]):
+            if saturated():
+                break
+            big_history(n, scenario, (kb % 3) != 2, kb)
+            kb += 1
+    if ctx.thorough:
+        for n in (127, 128, 129, 2047, 2048, 4095, 4096, 4097):
+            big_history(n, rng.choice(["all", "ind_then_all", "all_twice"]), rng.random() < 0.7, kb)
+            kb += 1
+
+    hist.setdefault("large_histories", {})["python_s"] = round(time.time() - t_big, 2)
+
     # ---- one complete run of every synchronising algorithm (thorough: six of different sizes) -------
     k = 100
     for rep in range(ctx.pick(1, 6)):
@@ -1295,6 +1561,7 @@ def run(ctx):
 
     ctx.coq_compare("c10h", header(), "c10_case", "c10_obs", "c10_run", "c10_eqb", cases, expected, meta, shard=ctx.pick(20, 60))
     ctx.coq_compare("c10r", header(), "c10_case", "c10_obs", "c10_run", "c10_eqb", rcases, rexpected, rmeta, shard=ctx.pick(1, 3))
+    ctx.coq_compare("c10b", header() + TINY_DEF, "c10_big", "c10_big_obs", "c10_big_run", "c10_big_eqb", bcases, bexpected, bmeta, shard=ctx.pick(17, 25))
     hist["corpus_cases"] = n_corpus
     hist["algorithms_not_exercised"] = skipped
     ctx.extra.update({"distribution": hist})
@@ -1304,7 +1571,11 @@ def run(ctx):
                 "escaping (Infinity, NaN, 1e999, quotes, backslashes, NUL, lone surrogates, 2.4 kB) as custom values and keys, feature keys, "
                 "description values (corpus 17, a directed stream of 50 / 400 histories, thinly everywhere); a history is "
                 "non-trivial when it writes at least two individual images; distinct = distinct encoded cases. Runs: one complete short run "
-                "per synchronising algorithm (%d algorithms), all store calls recorded." % len(ALGS))
+                "per synchronising algorithm (%d algorithms), all store calls recorded. Large histories: 255..2049 recorded tiny individuals "
+                "(17 counts around powers of two and multiples of 500), sync_all alone / after individual synchronisations and an in-place "
+                "change, all rows compared by the oracle, row count and sampled ids against the proved closed form in Coq. Lock histories: "
+                "the last sync_individual calls (existing id, new id) are made while a second connection holds BEGIN EXCLUSIVE until the "
+                "store has been refused 3..10 times." % len(ALGS))
 
 
 LEVEL_TEXT = ("Machine-checked Coq theorems over a model of Individual.to_dict / _replace_individual_id / from_dict, the individuals table with "
